@@ -149,14 +149,29 @@ def runReq (v2 : Bool) (ps : List (Bytes × Bytes)) (blk : Nat) (body : Bytes) :
       st ++ " db=" ++ hexEncode d ++ " rp=" ++ hexEncode rp ++
         (if rows.isEmpty then "" else " " ++ " | ".intercalate rows)
 
-def runSplitOp (blk maxLine : Nat) (caps : List Nat) (body : Bytes) : String :=
-  let (blocks, err) := bodyBlocks growExact blk maxLine caps body
+def runSplitOp (fin : End) (blk maxLine : Nat) (caps : List Nat) (body : Bytes) : String :=
+  let (blocks, err) := sourceBlocks growExact fin blk maxLine caps body
   " ".intercalate ("blocks" :: blocks.map hexEncode) ++
     (match err with
      | none => ""
      | some .tooLong => " err toolong"
      | some .fuel => " err fuel"
-     | some .unknownGrowth => " err unknown-growth")
+     | some .unknownGrowth => " err unknown-growth"
+     | some .readFailed => " err readerr")
+
+/-- `reqf …` — the handler when the body source fails after delivering `data`: the answer is an
+error; what reaches the points writer are the rows of the blocks handed over before. -/
+def runReqFail (v2 : Bool) (ps : List (Bytes × Bytes)) (blk : Nat) (data : Bytes) : String :=
+  match requestTarget catalogueDatabases v2 ps with
+  | .inl st => showStatus st ++ " nocall"
+  | .inr (d, rp, mult) =>
+    let (blocks, _) := sourceBlocks growExact .err blk 1048576 [] data
+    let oks := (blocks.map (processBlock mult)).filterMap fun r => match r with | .error _ => none | .ok rows => some rows
+    if oks.isEmpty then "400 nocall"
+    else
+      let rows := (oks.flatten.map showStored).mergeSort leStr
+      "400 db=" ++ hexEncode d ++ " rp=" ++ hexEncode rp ++
+        (if rows.isEmpty then "" else " " ++ " | ".intercalate rows)
 
 /-- one op; the state is the answer of the last `e2e` op (for `again`). -/
 def step (last : String) (line : String) : String × String :=
@@ -179,8 +194,19 @@ def step (last : String) (line : String) : String × String :=
     | _, _, _ => (last, "bad-op")
   | ["split", blk, maxLine, caps, body] =>
     match blk.toNat?, maxLine.toNat?, (caps.splitOn ",").mapM String.toNat?, hexDecode body with
-    | some blk, some ml, some caps, some b => (last, runSplitOp blk ml caps b)
+    | some blk, some ml, some caps, some b => (last, runSplitOp .eof blk ml caps b)
     | _, _, _, _ => (last, "bad-op")
+  | ["splite", blk, maxLine, caps, fin, body] =>
+    match blk.toNat?, maxLine.toNat?, (caps.splitOn ",").mapM String.toNat?, hexDecode body with
+    | some blk, some ml, some caps, some b =>
+      if fin == "eof" then (last, runSplitOp .eof blk ml caps b)
+      else if fin == "err" then (last, runSplitOp .err blk ml caps b)
+      else (last, "bad-op")
+    | _, _, _, _ => (last, "bad-op")
+  | ["reqf", v2, ps, blk, body] =>
+    match parseParams ps, blk.toNat?, hexDecode body with
+    | some ps, some blk, some b => (last, runReqFail (v2 == "1") ps blk b)
+    | _, _, _ => (last, "bad-op")
   | "note" :: _ => (last, "n/a")
   | _ => (last, "bad-op")
 
